@@ -33,7 +33,7 @@ func init() {
 			"race freedom is what the Go race detector reports on the executions produced (GORACE log, report blocks counted)",
 		},
 		Require: []string{"testdrv_histories", "testdrv_relistens", "testdrv_sends_before_first_listen", "testdrv_sends_closed", "testdrv_deliveries",
-			"mc_histories", "mc_deliveries", "mc_overlapping_sends", "mc_exactly_once_checks", "mc_stop_stamp_checks", "mc_porcupine_histories", "mc_relistens", "mc_stops_with_traffic_in_flight", "open_unstartable_probes", "helper_dies_probes"},
+			"mc_histories", "mc_deliveries", "mc_overlapping_sends", "mc_exactly_once_checks", "mc_stop_stamp_checks", "mc_porcupine_histories", "mc_relistens", "mc_stops_with_traffic_in_flight", "open_unstartable_probes", "helper_dies_probes", "mc_slow_callback_stops"},
 		Workers: 8,
 		UsesCur: true,
 		Run:     runC17,
@@ -131,6 +131,8 @@ func runC17(c *mon.Ctx) {
 			c.Sample("midicat-history", "ports opened twice, cycles of Listen / probe / concurrent senders / sentinel / stop / messages outside the window, Close twice, Send and Listen on closed ports; see rule")
 		}
 	})
+
+	c.Each("midicat-slow-callback", 1, func(_ int64, _ *mon.Rand) { runSlowCallbackHistory(c) })
 
 	// (c) no call blocks forever when the helper cannot be started
 	c.Each("open-unstartable", 5, func(i int64, _ *mon.Rand) {
